@@ -10,6 +10,7 @@ package main
 
 import (
 	"crypto/rand"
+	"flag"
 	"encoding/binary"
 	"fmt"
 	"os"
@@ -795,8 +796,17 @@ func (s *scripted) next(h *hist) *opSpec {
 	return &o
 }
 
+var (
+	lsnChildFlag = flag.Bool("lsnchild", false, "internal: play one listener history and print it")
+	lsnStepsFlag = flag.Int("lsnsteps", 30, "internal: steps of the listener history")
+)
+
 func main() {
 	a := lib.ParseArgs()
+	if *lsnChildFlag {
+		lsnChild(a.Seed, *lsnStepsFlag, os.Getenv("C12_LSN_SCRIPT"))
+		return
+	}
 	rand.Reader = theTape
 	// the provider must not depend on the local zone: run everything in one with
 	// daylight saving (an AddDate-style computation would give 71 h / 73 h days)
@@ -817,6 +827,11 @@ func main() {
 		nh, nc, nv = 60000, 15000, 40000
 	}
 	lockCheck()
+	nl := 14
+	if a.Tier == "thorough" {
+		nl = 120
+	}
+	lsnCases(a.Seed, nl)
 	corpus()
 	longHist(epoch2000, 65600, func(int) int64 { return renewal + 1 }, "wrap16")
 	if a.Tier == "thorough" {
